@@ -206,12 +206,30 @@ def _str_split(interp, args, kwargs):
     from pyvc.vals import TList
     from pyvc.core import mem_fn
     ctx = interp.ctx
-    if len(args) != 2 or kwargs or not isinstance(args[1], str) or len(args[1]) != 1:
-        raise Unsupported("str.split other than split(<one literal character>)")
+    maxsplit = args[2] if len(args) == 3 else kwargs.get("maxsplit")
+    if len(args) not in (2, 3) or (set(kwargs) - {"maxsplit"}) or not isinstance(args[1], str) or len(args[1]) != 1 \
+            or (maxsplit is not None and maxsplit != 1):
+        raise Unsupported("str.split other than split(<one literal character>[, 1])")
     t = _s(interp, args[0])
     sp = z3.StringVal(args[1])
     ty = TList(STR)
     so = sort_of(ty)
+    if maxsplit == 1:
+        # s.split(c, 1): [s] when c does not occur, else [text before the first c, text after it]
+        fa = z3.Function("part_a", z3.StringSort(), z3.StringSort(), z3.StringSort())
+        fb = z3.Function("part_b", z3.StringSort(), z3.StringSort(), z3.StringSort())
+        a, b = fa(t, sp), fb(t, sp)
+        found = z3.Contains(t, sp)
+        ctx.assume(z3.If(found, z3.And(t == z3.Concat(a, sp, b), z3.Not(z3.Contains(a, sp))), z3.And(a == t, b == z3.StringVal(""))))
+        r1 = z3.Const(ctx.fresh_name("split1"), so)
+        ctx.assume(so.len(r1) == z3.If(found, 2, 1))
+        ctx.assume(z3.Select(so.data(r1), 0) == a)
+        ctx.assume(z3.Implies(found, z3.Select(so.data(r1), 1) == b))
+        e1 = z3.Const(ctx.fresh_name("fld"), z3.StringSort())
+        ctx.assume(z3.ForAll([e1], mem_fn(ty)(r1, e1) == z3.Or(e1 == a, z3.And(found, e1 == b))))
+        cell1 = interp.ctx.wrap(r1, ty)
+        ctx.assume_type_inv(cell1, ty)
+        return cell1
     f = z3.Function("split_of", z3.StringSort(), z3.StringSort(), so)
     r = f(t, sp)
     e = z3.Const(ctx.fresh_name("fld"), z3.StringSort())
@@ -222,7 +240,25 @@ def _str_split(interp, args, kwargs):
     ctx.assume(z3.ForAll([e], m(r, e) == field))
     k = z3.Int(ctx.fresh_name("k"))
     ctx.assume(z3.ForAll([k], z3.Implies(z3.And(0 <= k, k < so.len(r)), m(r, z3.Select(so.data(r), k)))))
-    return interp.ctx.wrap(r, ty)
+    # positions: field k starts at split_off(s, sep, k); consecutive fields are one separator apart; the last one ends the text
+    off = z3.Function("split_off", z3.StringSort(), z3.StringSort(), z3.IntSort(), z3.IntSort())
+    fk = z3.Select(so.data(r), k)
+    ctx.assume(off(t, sp, 0) == 0)
+    ctx.assume(z3.ForAll([k], z3.Implies(z3.And(0 <= k, k < so.len(r)),
+                                         z3.And(off(t, sp, k) >= 0, off(t, sp, k) + z3.Length(fk) <= z3.Length(t),
+                                                off(t, sp, k + 1) == off(t, sp, k) + z3.Length(fk) + 1,
+                                                z3.SubString(t, off(t, sp, k), z3.Length(fk)) == fk)), patterns=[fk]))
+    ctx.assume(off(t, sp, so.len(r)) == z3.Length(t) + 1)
+    cell = interp.ctx.wrap(r, ty)
+    ctx.assume_type_inv(cell, ty)          # every member has a position (and every position holds a member)
+    return cell
+
+
+def _split_off(interp, args, kwargs):
+    """split_off(s, sep, k): start position of the k-th field of s.split(sep) (specification only)"""
+    from pyvc.vals import INT
+    off = z3.Function("split_off", z3.StringSort(), z3.StringSort(), z3.IntSort(), z3.IntSort())
+    return SV(INT, off(_s(interp, args[0]), _s(interp, args[1]), interp.ctx.term(args[2], INT)))
 
 
 def _deepcopy(interp, args, kwargs):
@@ -448,7 +484,7 @@ if z3 is not None:
         "str.rpartition": _partition(True), "str.partition": _partition(False),
         "str.count": _str_count_native, "count_of": _str_count_native,
         "ErrorHandler.format_error_with_context": _format_error_with_context,
-        "str.replace": _str_replace, "str.split": _str_split, "copy.deepcopy": _deepcopy, "replace_all": _str_replace,
+        "str.replace": _str_replace, "str.split": _str_split, "split_off": _split_off, "copy.deepcopy": _deepcopy, "replace_all": _str_replace,
         "forall_str": _forall_str, "dirname_of": _dirname_model, "commonpath2": _ufun("commonpath2", 2),
         "os.path.commonpath": lambda interp, args, kwargs: _ufun("commonpath2", 2)(interp, list(interp.iter_items_concrete(args[0])), {}), "basename_of": _basename_model, "original_path_of": _ufun("original_path_of", 2),
         "backup_keys": lambda interp, args, kwargs: interp.ctx.wrap(z3.Function("backup_keys", z3.IntSort(), z3.StringSort(), sort_of(__import__("pyvc.vals", fromlist=["TList"]).TList(STR)))(args[0].t, _s(interp, args[1])), __import__("pyvc.vals", fromlist=["TList"]).TList(STR)), "unknown_src_map": _src_map, "src_of": _src_of,
